@@ -28,6 +28,7 @@ TABLE = {
     "c07_arith_wires_swapped.diff": ("contracts.c07", "_configure_arithmetic", None),
     "c07_row_not_mirrored.diff": ("contracts.c07", "_configure_decider_multi_condition", None),
     "c08_mark_occupied_row_only.diff": ("contracts.c08", "mark_occupied", None),
+    "c14_zero_step_via_variable.diff": ("contracts.c14", "visit_ForStmt", "variable"),
     "c14_define_shadows_in_inner_scope.diff": ("contracts.c14", "define", None),
     "c14_error_not_counted.diff": ("contracts.c14", "error", None),
     "c09_xy_swapped.diff": ("contracts.c09", "_place_user_entity", None),
